@@ -124,6 +124,28 @@ def run(shard, tier, seed):
         res.evaluations += 1
         if got != ok:
             res.fail("range_limit", "sashimi-range", "validate_sashimi_range(%d) accepted=%s expected %s" % (v, got, ok), {"value": v})
+    # ... and it is the limit for amounts that ARRIVE (decoded from bytes), not only for amounts built in memory
+    from vf import build as b, refmodel as R
+    from vf.keys import KEYS
+    from skepticoin import datatypes as D
+    for v, ok in ((1, True), ((1 << 32), True), ((1 << 48) - 1, True), (1 << 48, True), (3_000_000 * 100_000_000, True), ((1 << 50), True),
+                  (TOTAL - 1, True), (TOTAL, True), (TOTAL + 1, False), ((1 << 63) - 1, False), (1 << 63, False), ((1 << 64) - 1, False)):
+        for n_out in (1, 2):
+            outs = [(v, KEYS[0].pub)] if n_out == 1 else [(1, KEYS[1].pub), (v - 1, KEYS[0].pub)]
+            if n_out == 2 and v < 2:
+                continue
+            t = R.RTx([(R.sha256d(b"c16"), 0, ("sig", KEYS[0].sign(b"c16")))], outs)
+            res.evaluations += 1
+            try:
+                sk = D.Transaction.deserialize(b.to_sk_tx(t).serialize())
+                C.validate_non_coinbase_transaction_by_itself(sk)
+                got = True
+            except Exception:
+                got = False
+            want = ok if n_out == 1 else (v <= TOTAL)
+            if got != want:
+                res.fail("range_limit", "decoded-amount-limit", "a transaction with %d output(s) totalling %d sashimi, decoded from its bytes, is %s by the validator (limit %d)" % (
+                    n_out, v, "accepted" if got else "refused", TOTAL), {"value": v, "decoded": True})
     # documentation
     doc = os.path.join(env.REPO, "docs", "params.md")
     try:
@@ -231,6 +253,8 @@ def run_validator(res, tier, seed):
             deep = {"H": INTERVAL * k - below, "tip_ts": 1_700_000_000, "target": (1 << 254).to_bytes(32, "big").hex(), "special": {}}
             ops = [{"label": "a", "parent": "g", "miner": 1, "dt": 100, "txs": [], "reward": {"delta": 1}, "mut": "C02:reward+1"},
                    {"label": "a", "parent": "g", "miner": 1, "dt": 100, "txs": [], "reward": {"delta": subsidy_ref(INTERVAL * k - below) - subsidy_ref(INTERVAL * k - below + 1)}, "mut": "C02:reward_of_previous_era"},
+                   {"label": "a", "parent": "g", "miner": 1, "dt": 100, "txs": [], "reward": {"delta": 1, "shape": "split"}, "mut": "C02:reward+1_in_two_outputs"},
+                   {"label": "a", "parent": "g", "miner": 1, "dt": 100, "txs": [], "reward": {"delta": 0, "shape": "times3"}, "mut": "C02:reward_three_times"},
                    {"label": "a", "parent": "g", "miner": 1, "dt": 100, "txs": []},
                    {"label": "b", "parent": "a", "miner": 2, "dt": 100, "txs": [], "reward": {"delta": 1}, "mut": "C02:reward+1"},
                    {"label": "b", "parent": "a", "miner": 2, "dt": 100, "txs": []}]
